@@ -135,6 +135,16 @@ def _keys(prop, root, overlay):
 def _one(args):
     prop, root, v, base = args
     try:
+        if isinstance(v, tuple) and v[0] == "global":
+            from sa.selftest.globaltwins import overlays
+            ov = overlays(root)[v[1]]
+            try:
+                ks = _keys(prop, root, ov)
+            except AnalysisError as exc:
+                return (v[1], "error", str(exc))
+            except Exception as exc:
+                return (v[1], "error", f"internal error {type(exc).__name__}: {exc}")
+            return (v[1], "ok", [k for k in ks if k not in base] + [("missing",) + tuple(k) for k in base if k not in ks])
         ov = _overlay(root, v)
         if ov is None:
             return (v.name, "inapplicable", None)
@@ -160,7 +170,8 @@ def run_selftest(prop: str, root: str) -> dict:
     twins: list[Variant] = getattr(mod, "TWINS", [])
     base = _keys(prop, root, None)
     base_triples = {(k[0], k[1], k[2]) for k in base}
-    jobs = [(prop, root, v, base) for v in mutants + twins]
+    gtw = [("global", "whole-tree-unparse"), ("global", "whole-tree-local-rename")]
+    jobs = [(prop, root, v, base) for v in mutants + twins] + [(prop, root, g, base) for g in gtw]
     with ProcessPoolExecutor(max_workers=min(16, max(1, len(jobs)))) as ex:
         results = list(ex.map(_one, jobs))
     res = {r[0]: r for r in results}
@@ -184,6 +195,15 @@ def run_selftest(prop: str, root: str) -> dict:
         else:
             out["missed"].append(v.name)
             out["details"].append({"mutant": v.name, "reported": None, "other_new": ["|".join(k)[:200] for k in payload][:3]})
+    for g in gtw:
+        _, status, payload = res[g[1]]
+        out["twins"] += 1
+        if status == "error":
+            out["noisy"].append(g[1] + " (ANALYSIS-ERROR: " + payload[:200] + ")")
+        elif payload:
+            out["noisy"].append(g[1] + ": " + "; ".join("|".join(map(str, k))[:120] for k in payload[:3]))
+        else:
+            out["quiet"] += 1
     for v in twins:
         _, status, payload = res[v.name]
         if status == "inapplicable":
